@@ -179,7 +179,10 @@ def _execute(sc, probe) -> Outcome:
                     vio.append(V(P, "request-failed", f"{what}: {label}: thread {i} request {tok} failed with {out['exc']['type']}: {out['exc']['msg']} "
                                  f"(raised in {out['exc'].get('inner')}) although the server is well-behaved"
                                  + (f"; thread(s) {closers} closed a connection while this request was in flight" if closers else ""),
-                                 exc=out["exc"]["name"], site=out["exc"].get("inner"), closed_by_other_thread=bool(closers), **sig))
+                                 exc=out["exc"]["name"], site=out["exc"].get("inner"), closed_by_other_thread=bool(closers),
+                                 # h2's StreamClosedError / NoSuchStreamError carry nothing but the stream id: the thread's stream was closed or
+                                 # dropped from the shared h2 state by another thread (F-C08-h2-state-raced-by-reader, in its non-KeyError form)
+                                 h2_stream_gone=bool(out["exc"]["msg"].strip().isdigit()), **sig))
                     continue
                 exp = response_body(norm_plan(plans[tok]), tok, step["method"].encode())
                 xt = [v for n_, v in out["headers"] if n_.lower() == b"x-tok"]
